@@ -12,3 +12,71 @@ Qed.
 
 Lemma tile_eqb_refl a : tile_eqb a a = true.
 Proof. apply tile_eqb_eq. reflexivity. Qed.
+
+(* ParseTilePath only accepts the canonical encoding: the final `path != t.Path()` test *)
+Lemma parse_tile_path_canonical s t : parse_tile_path s = TOk t -> tile_path t = s.
+Proof.
+  unfold parse_tile_path. intros H.
+  destruct (split_on 47 s) as [|f0 [|f1 [|f2 [|f3 fr]]]]; try discriminate.
+  destruct (negb (str_eqb f0 (B "tile"))); [discriminate|].
+  destruct (Strconv.atoi f1) as [h|]; [|discriminate].
+  destruct (Strconv.atoi (if str_eqb f2 (B "data") then B "0" else f2)) as [l|]; [|discriminate].
+  destruct ((h <? 1) || (l <? 0) || (30 <? h)); [discriminate|].
+  match type of H with
+  | match ?o with _ => _ end = _ => destruct o as [[w f'']|]; [|discriminate]
+  end.
+  destruct (parse_n (skipn 3 f'') 0) as [n|]; [|discriminate].
+  match type of H with
+  | (if str_eqb s ?p then _ else _) = _ => destruct (str_eqb s p) eqn:E; [|discriminate]
+  end.
+  injection H as <-. apply str_eqb_eq in E. symmetry. exact E.
+Qed.
+
+Lemma wrap64_range z : - 2 ^ 63 <= wrap64 z < 2 ^ 63.
+Proof.
+  unfold wrap64. pose proof (Z.mod_pos_bound (z + 2 ^ 63) (2 ^ 64) ltac:(lia)).
+  assert (2 ^ 64 = 2 * 2 ^ 63) by reflexivity. lia.
+Qed.
+
+Lemma parse_n_range : forall f n0 n,
+  parse_n f n0 = Some n -> - 2 ^ 63 <= n0 < 2 ^ 63 -> - 2 ^ 63 <= n < 2 ^ 63.
+Proof.
+  induction f as [|s r IH]; intros n0 n H Hn0; cbn [parse_n] in H.
+  - injection H as <-. exact Hn0.
+  - destruct (Strconv.atoi (trim_x s)) as [nn|]; [|discriminate].
+    destruct ((nn <? 0) || (1000 <=? nn)); [discriminate|].
+    apply (IH _ _ H). apply wrap64_range.
+Qed.
+
+(* the coordinates ParseTilePath returns (all of valid_tile except 0 <= tN, see Props/C10.v) *)
+Lemma parse_tile_path_shape s t :
+  parse_tile_path s = TOk t ->
+  1 <= tH t <= 30 /\ -1 <= tL t /\ 1 <= tW t <= 2 ^ tH t /\ - 2 ^ 63 <= tN t < 2 ^ 63.
+Proof.
+  unfold parse_tile_path. intros H.
+  destruct (split_on 47 s) as [|f0 [|f1 [|f2 [|f3 fr]]]]; try discriminate.
+  destruct (negb (str_eqb f0 (B "tile"))); [discriminate|].
+  destruct (Strconv.atoi f1) as [h|]; [|discriminate].
+  destruct (Strconv.atoi (if str_eqb f2 (B "data") then B "0" else f2)) as [l|]; [|discriminate].
+  destruct ((h <? 1) || (l <? 0) || (30 <? h)) eqn:Ec; [discriminate|].
+  rewrite !orb_false_iff in Ec. destruct Ec as [[E1 E2] E3].
+  apply Z.ltb_ge in E1, E2, E3.
+  pose proof (Z.pow_pos_nonneg 2 h ltac:(lia) ltac:(lia)) as Hp.
+  match type of H with
+  | match ?o with _ => _ end = _ => destruct o as [[w f'']|] eqn:Eo; [|discriminate]
+  end.
+  assert (Hw : 1 <= w <= 2 ^ h).
+  { destruct (has_suffix _ _) in Eo.
+    - destruct (Strconv.atoi _) as [ww|] in Eo; [|discriminate].
+      destruct ((ww <=? 0) || (2 ^ h <=? ww)) eqn:Ew; [discriminate|].
+      rewrite orb_false_iff in Ew. destruct Ew as [W1 W2]. apply Z.leb_gt in W1, W2.
+      injection Eo as <- _. lia.
+    - injection Eo as <- _. lia. }
+  destruct (parse_n (skipn 3 f'') 0) as [n|] eqn:En; [|discriminate].
+  apply parse_n_range in En; [|lia].
+  match type of H with
+  | (if ?c then _ else _) = _ => destruct c; [|discriminate]
+  end.
+  injection H as <-. cbn [tH tL tN tW].
+  repeat split; try lia. destruct (str_eqb f2 (B "data")); lia.
+Qed.
